@@ -105,6 +105,13 @@ def main():
             res["existing_tests_wall_s"] = round(time.time() - t0)
             if bad:
                 print("EXISTING TESTS FAIL:\n", "\n".join(bad[:10]))
+        if a.skip_suite and "existing_tests_pass" in meta.get("validation", {}):
+            # carried over from the last validation that ran the suite
+            pv = meta["validation"]
+            for k in ("existing_tests_pass", "existing_tests_cmd", "existing_tests_wall_s"):
+                if k in pv:
+                    res[k] = pv[k]
+            res["existing_tests_validated_at_repo_head"] = pv.get("existing_tests_validated_at_repo_head", pv.get("validated_at_repo_head"))
         res["checks"] = {}
         for cid in [c for c in a.checks.split(",") if c]:
             env = dict(ENV, VERIF_REPO=mut)
